@@ -113,6 +113,8 @@ type faultBackend struct {
 	real     transaction.StorageBackend
 	armed    atomic.Bool
 	injected atomic.Int64
+	delay    atomic.Int64  // one-shot: the next ApplyBatch announces itself on inApply and sleeps this long first (slow commit)
+	inApply  chan struct{} // buffered
 }
 
 var errInjected = errors.New("injected storage fault (C17)")
@@ -122,6 +124,13 @@ func (b *faultBackend) ApplyBatch(entries []*wal.Entry) error {
 	if b.armed.CompareAndSwap(true, false) {
 		b.injected.Add(1)
 		return errInjected
+	}
+	if d := b.delay.Swap(0); d > 0 {
+		select {
+		case b.inApply <- struct{}{}:
+		default:
+		}
+		time.Sleep(time.Duration(d))
 	}
 	return b.real.ApplyBatch(entries)
 }
@@ -221,9 +230,9 @@ type world struct {
 	eng       *engine.EngineFacade
 	weng      *wrapEngine
 	fb        *faultBackend // nil: transactions come from the engine's own manager
-	reg       transaction.Registry
-	regImpl   *transaction.RegistryImpl
-	svc       *service.KevoServiceServer
+	reg       *regProxy     // the registry behind bounded (tracked) calls
+	svc       *svcProxy     // the service handlers behind bounded (tracked) calls
+	agedSlept int           // aged mode: number of sweeps that waited for an age band
 	committed map[string]string
 	cur       []*txn // current transaction record per client (nil = never began)
 	retired   []*txn // finished transactions whose client has begun a new one since; the old handles stay usable for "later use"
@@ -285,8 +294,8 @@ func newWorld(c *Case, rep int, scratch string) *world {
 	w.weng = &wrapEngine{EngineFacade: e}
 	limit := time.Duration(c.LimitMs) * time.Millisecond
 	idle := time.Hour
-	if c.Backend == "wrapped" || c.Mode == "short_ttl" {
-		w.fb = &faultBackend{real: e.VerifStorage()}
+	if c.Backend == "wrapped" || c.Mode == "short_ttl" || c.Mode == "aged" {
+		w.fb = &faultBackend{real: e.VerifStorage(), inApply: make(chan struct{}, 1)}
 		w.features["backend_wrapped"] = true
 	}
 	switch c.Mode {
@@ -297,14 +306,26 @@ func newWorld(c *Case, rep int, scratch string) *world {
 		}
 	case "short_ttl":
 		w.weng.mgr = transaction.NewManagerWithTTL(w.fb, nil, limit, limit, time.Hour)
+	case "aged":
+		// idle limit = limit, lifetime limit = 10 x limit: sweeps meet transactions of every age band
+		idle = limit
+		w.weng.mgr = transaction.NewManagerWithTTL(w.fb, nil, w.lifetime(), w.lifetime(), time.Hour)
 	default:
 		if w.fb != nil {
 			w.weng.mgr = transaction.NewManager(w.fb, nil)
 		}
 	}
-	w.reg = transaction.NewRegistryWithTTL(time.Hour, idle, 75, 90)
-	w.regImpl = w.reg.(*transaction.RegistryImpl)
-	w.svc = service.NewKevoServiceServer(w.weng, w.reg, nil)
+	warn, crit := 75, 90
+	if c.Warn > 0 {
+		warn, crit = c.Warn, c.Warn+25
+		if crit > 95 {
+			crit = 95
+		}
+	}
+	real := transaction.NewRegistryWithTTL(time.Hour, idle, warn, crit)
+	w.reg = &regProxy{real: real, impl: real.(*transaction.RegistryImpl)}
+	w.svc = &svcProxy{real: service.NewKevoServiceServer(w.weng, real, nil)}
+	curWorld.Store(w)
 	w.cur = make([]*txn, c.Clients)
 	for _, kv := range c.Init {
 		k := keyOf(kv.K)
@@ -318,6 +339,49 @@ func newWorld(c *Case, rep int, scratch string) *world {
 }
 
 func (w *world) short() bool { return w.c.Mode != "long" }
+
+func (w *world) lifetime() time.Duration { return 10 * time.Duration(w.c.LimitMs) * time.Millisecond }
+
+// ageBand: in aged mode a sweep may first wait until the oldest registered
+// transaction that still holds its lock has reached pct % of its lifetime limit
+// (it is idle for longer than the idle limit in any case), so that the sweep
+// meets it below the warning threshold, between the thresholds, above the
+// critical threshold or past the lifetime limit.
+func (w *world) ageBand(pct int) {
+	if w.c.Mode != "aged" || pct <= 0 || w.agedSlept >= 1 {
+		return
+	}
+	var oldest *txn
+	for _, t := range w.all {
+		if t.registered && t.holds() && (oldest == nil || t.issued.Before(oldest.issued)) {
+			oldest = t
+		}
+	}
+	if oldest == nil {
+		return
+	}
+	w.agedSlept++
+	want := time.Duration(pct) * w.lifetime() / 100
+	if d := want - time.Since(oldest.issued); d > 0 {
+		time.Sleep(d)
+	}
+	age := int(100 * time.Since(oldest.issued) / w.lifetime())
+	warn, crit := 75, 90
+	if w.c.Warn > 0 {
+		warn, crit = w.c.Warn, w.c.Warn+25
+	}
+	switch {
+	case age > 100:
+		w.features["aged_sweep_past_lifetime"] = true
+	case age > crit:
+		w.features["aged_sweep_above_critical"] = true
+	case age > warn:
+		w.features["aged_sweep_warning_to_critical"] = true
+	default:
+		w.features["aged_sweep_below_warning"] = true
+	}
+	w.logf("  oldest registered holder is at about %d%% of its lifetime limit", age)
+}
 
 func (w *world) sleepPastLimit() {
 	time.Sleep(time.Duration(w.c.LimitMs)*time.Millisecond + 5*time.Millisecond)
@@ -527,6 +591,18 @@ func isDone(c *beginCall) bool {
 
 func (w *world) blocked(what string) {
 	w.wedged = true
+	// a begin that has been granted the lock but does not return is stuck in the registry
+	for _, t := range w.all {
+		if t.state == stInflight && t.path != "direct" && t.rec != nil && t.rec.acquired.Load() && !isDone(t.call) {
+			t0 := ticks.Load()
+			for ticks.Load()-t0 < ticksOf(fastBound) && !isDone(t.call) {
+				time.Sleep(time.Millisecond)
+			}
+			if !isDone(t.call) {
+				panic(registryBlockedVerdict("Begin", w))
+			}
+		}
+	}
 	d := w.diagnose()
 	why := ""
 	if strings.HasPrefix(d, "holder=none_active") {
@@ -904,6 +980,10 @@ func (w *world) doWriteTx(s Step) {
 		return
 	}
 	w.useOpen(t, "put", keyOf(s.K), s.V, "")
+	if s.SlowMs > 0 && w.overlappable(t, "commit") {
+		w.finishOverlapped(t, s.SlowMs, s.During, s.Keep)
+		return
+	}
 	w.faultNext = s.Fault
 	w.finish(t, "commit", s.Keep)
 	w.faultNext = false
@@ -1259,9 +1339,192 @@ func (w *world) doFinish(s Step) {
 		w.finishDeadCtx(t, s.Op, s.Ctx)
 		return
 	}
+	if (s.SlowMs > 0 || s.Fault) && s.Op == "commit" && w.fb != nil && t.state == stOpen && !t.ro && len(t.overlay) == 0 {
+		// a slow or failing commit needs a batch: the client writes one key first
+		w.logf("put client %d (%s rw open) key=%s", t.client, t.path, keyOf(s.K))
+		w.useOpen(t, "put", keyOf(s.K), fmt.Sprintf("m%d", w.stepNo), "")
+	}
+	if s.SlowMs > 0 && w.overlappable(t, s.Op) {
+		w.finishOverlapped(t, s.SlowMs, s.During, s.Keep)
+		return
+	}
 	w.faultNext = s.Fault
 	w.finish(t, s.Op, s.Keep)
 	w.faultNext = false
+}
+
+func (w *world) overlappable(t *txn, op string) bool {
+	return op == "commit" && w.fb != nil && t.state == stOpen && !t.ro && len(t.overlay) > 0 && t.path != "direct"
+}
+
+// finishOverlapped: the commit of t is slow (the storage takes slowMs for the
+// batch), and while it is inside the storage a second actor goes for the same
+// transaction: the client retries the commit or sends a rollback on the same
+// handle, or the server runs CleanupConnection / the stale sweep (limits
+// expired) / GracefulShutdown. Both have found the handle in the registry.
+// Afterwards exactly one finisher has taken effect, the other one got the
+// closed / not-found error, the handle is gone, the lock is free and the
+// registry still answers.
+func (w *world) finishOverlapped(t *txn, slowMs int, during string, keep bool) {
+	if during == "" {
+		during = "rollback"
+	}
+	if during == "cleanup_stale" && !w.short() {
+		during = "commit"
+	}
+	if during == "shutdown" && w.shutdown {
+		during = "cleanup_conn"
+	}
+	w.logf("commit client %d (%s rw open id=%s) slow %d ms, meanwhile %s", t.client, t.path, t.id, slowMs, during)
+	w.features["finish_overlapped"] = true
+	w.features["finish_overlapped_by_"+during] = true
+	if during == "cleanup_stale" {
+		w.sleepPastLimit()
+	}
+	select {
+	case <-w.fb.inApply:
+	default:
+	}
+	w.fb.delay.Store(int64(time.Duration(slowMs) * time.Millisecond))
+	defer w.fb.delay.Store(0)
+	first := make(chan error, 1)
+	go func() {
+		if t.path == "svc" {
+			_, e := w.svc.CommitTransaction(context.Background(), &pb.CommitTransactionRequest{TransactionId: t.id})
+			first <- e
+			return
+		}
+		// registry-level client, doing what the service handler does: Get, finish, Remove
+		tx, ok := w.reg.Get(t.id)
+		if !ok {
+			first <- fmt.Errorf("transaction not found: %s", t.id)
+			return
+		}
+		e := tx.Commit()
+		w.reg.Remove(t.id)
+		first <- e
+	}()
+	var err1 error
+	firstReturned := false
+	entered := w.waitFor(func() bool {
+		select {
+		case <-w.fb.inApply:
+			return true
+		case err1 = <-first:
+			firstReturned = true
+			return true
+		default:
+			return false
+		}
+	})
+	if !entered {
+		panic(registryBlockedVerdict("first finisher (commit)", w))
+	}
+	// ---- the second actor, while the first is inside the storage
+	var err2 error
+	secondIsFinisher := during == "commit" || during == "rollback"
+	var hit []*txn
+	switch during {
+	case "commit", "rollback":
+		if t.path == "svc" {
+			if during == "commit" {
+				_, err2 = w.svc.CommitTransaction(context.Background(), &pb.CommitTransactionRequest{TransactionId: t.id})
+			} else {
+				_, err2 = w.svc.RollbackTransaction(context.Background(), &pb.RollbackTransactionRequest{TransactionId: t.id})
+			}
+		} else if tx, ok := w.reg.Get(t.id); ok {
+			if during == "commit" {
+				err2 = tx.Commit()
+			} else {
+				err2 = tx.Rollback()
+			}
+			w.reg.Remove(t.id)
+		} else {
+			err2 = fmt.Errorf("transaction not found: %s", t.id)
+		}
+	case "cleanup_conn":
+		w.epoch++
+		for _, o := range w.registered() {
+			if o != t && o.conn == t.conn {
+				hit = append(hit, o)
+			}
+		}
+		w.reg.CleanupConnection(t.conn)
+	case "cleanup_stale":
+		w.epoch++
+		for _, o := range w.registered() {
+			if o != t {
+				hit = append(hit, o)
+			}
+		}
+		w.reg.CleanupStaleTransactions()
+	case "shutdown":
+		w.epoch++
+		w.shutdown = true
+		w.features["shutdown"] = true
+		for _, o := range w.registered() {
+			if o != t {
+				hit = append(hit, o)
+			}
+		}
+		_ = w.reg.GracefulShutdown(context.Background())
+	}
+	if !firstReturned {
+		if !w.waitFor(func() bool {
+			select {
+			case err1 = <-first:
+				return true
+			default:
+				return false
+			}
+		}) {
+			panic(registryBlockedVerdict("first finisher (commit)", w))
+		}
+	}
+	w.logf("  commit returned %v, %s returned %v", err1, during, err2)
+	// ---- who took effect
+	ok1 := err1 == nil
+	applied := ok1
+	how := "commit"
+	if secondIsFinisher {
+		ok2 := err2 == nil
+		switch {
+		case ok1 && ok2:
+			w.fail("both_finishers_succeeded:commit+"+during+":"+t.path, "a slow commit and a concurrent %s of the same transaction both reported success", during)
+		case !ok1 && !ok2:
+			w.fail("no_finisher_succeeded:commit+"+during+":"+t.path, "a slow commit (%v) and a concurrent %s (%v) of the same open transaction both failed", err1, during, err2)
+		case ok1 && !isGoneErr(err2):
+			w.fail("second_finisher_wrong_error:"+during+":"+t.path, "the losing %s returned %v, want the closed / not-found error", during, err2)
+		case ok2 && !isGoneErr(err1):
+			w.fail("second_finisher_wrong_error:commit:"+t.path, "the losing commit returned %v, want the closed / not-found error", err1)
+		}
+		if ok2 {
+			applied = during == "commit"
+			how = during
+		}
+	} else if !ok1 {
+		if !isGoneErr(err1) {
+			w.diverge("slow commit during %s failed: %v", during, err1)
+		}
+		how = during // the server's rollback came first
+	}
+	if applied {
+		w.applyOverlay(t)
+		w.commits++
+		t.commitsSince = w.commits
+	}
+	t.state = stDone
+	t.rec.how = how
+	t.registered = false
+	w.released(how, t)
+	if _, still := w.reg.Get(t.id); still {
+		w.fail("not_cleaned:finish_overlapped_by_"+during, "after a commit overlapped by %s the registry still knows %s", during, t.id)
+	}
+	for _, o := range hit {
+		w.expectCleaned(o, during+"_during_commit")
+	}
+	w.checkState("finish_overlapped_by_" + during)
+	w.settle()
 }
 
 // finishDeadCtx: CommitTransaction / RollbackTransaction through the service
@@ -1445,6 +1708,12 @@ func (w *world) finish(t *txn, op string, keep bool) {
 		if !isClosedErr(err) {
 			w.fail(fmt.Sprintf("repeated_finish_accepted:%s:%s:%s", op, t.path, how), "%s on the finished transaction (%s) returned %v, want the closed error", op, how, err)
 		}
+		if t.path == "reg" && t.id != "" && !t.registered {
+			// like the service handler, a registry-level client takes the handle out after
+			// finishing, also the second time, when the registry no longer has it
+			w.reg.Remove(t.id)
+			w.features["remove_of_unknown_handle"] = true
+		}
 	}
 	w.checkState(op + ":repeat_after_" + how)
 }
@@ -1501,13 +1770,14 @@ func (w *world) registered() []*txn {
 	return out
 }
 
-func (w *world) doCleanupStale() {
+func (w *world) doCleanupStale(s Step) {
 	w.logf("cleanup_stale (%s)", w.c.Mode)
 	regd := w.registered()
 	w.epoch++
 	if w.short() {
 		w.sleepPastLimit()
-		w.regImpl.CleanupStaleTransactions()
+		w.ageBand(s.AgePct)
+		w.reg.CleanupStaleTransactions()
 		kind := "stale_" + w.c.Mode
 		for _, t := range regd {
 			w.expectCleaned(t, kind)
@@ -1516,7 +1786,7 @@ func (w *world) doCleanupStale() {
 		w.settle()
 		return
 	}
-	w.regImpl.CleanupStaleTransactions()
+	w.reg.CleanupStaleTransactions()
 	for _, t := range regd {
 		if _, ok := w.reg.Get(t.id); !ok {
 			w.fail("cleanup_removed_fresh_tx:"+t.state, "CleanupStaleTransactions removed transaction %s although neither its idle nor its lifetime limit (1 h / 1 min) has expired", t.id)
@@ -1649,6 +1919,9 @@ func (w *world) finishEverything() {
 		if mode == "stale" && !w.short() {
 			mode = "conn"
 		}
+		if w.c.Mode == "aged" && t.path != "direct" && w.agedSlept == 0 {
+			mode = "stale" // every aged case ends with a sweep that meets the holder in a drawn age band
+		}
 		if mode == "rollback" && t.state == stGone {
 			mode = "conn"
 		}
@@ -1658,7 +1931,11 @@ func (w *world) finishEverything() {
 		case "conn":
 			w.doCleanupConn(Step{Op: "cleanup_conn", C: t.client, Peer: t.conn != "unknown"})
 		case "stale":
-			w.doCleanupStale()
+			pct := w.c.EndAgePct
+			if pct == 0 {
+				pct = 80
+			}
+			w.doCleanupStale(Step{Op: "cleanup_stale", AgePct: pct})
 		case "shutdown":
 			w.doShutdown()
 		}
@@ -1796,6 +2073,46 @@ func (w *world) refinishAll() {
 	w.counters["final_refinish_calls"] += n
 }
 
+// registryProbe: at the very end every kind of registry call must still return
+// within the bound: Begin (through the registry, read-write), Get, Remove,
+// CleanupConnection, the sweep.
+func (w *world) registryProbe() {
+	if w.shutdown {
+		// no new transactions on a registry that was shut down; the other calls must still answer
+		w.reg.Get("tx-0")
+		w.reg.CleanupConnection("conn-probe")
+		w.reg.CleanupStaleTransactions()
+		return
+	}
+	t := &txn{client: -1, path: "reg", conn: "conn-probe", overlay: map[string]*string{}}
+	w.all = append(w.all, t)
+	w.issue(t, 0)
+	if !w.waitFor(func() bool { return isDone(t.call) }) {
+		if t.rec.acquired.Load() {
+			panic(registryBlockedVerdict("Begin", w))
+		}
+		w.blocked("a fresh read-write transaction through Registry.Begin (registry probe)")
+	}
+	if t.call.err != nil {
+		w.diverge("registry probe begin: %v", t.call.err)
+	}
+	t.id, t.state, t.rec.how = t.call.id, stOpen, "begin"
+	tx, ok := w.reg.Get(t.id)
+	if !ok {
+		w.fail("registry_lost_open_tx", "the registry does not know the handle %s it has just returned (registry probe)", t.id)
+	}
+	if err := tx.Rollback(); err != nil {
+		w.diverge("registry probe rollback: %v", err)
+	}
+	t.state, t.rec.how = stDone, "rollback"
+	w.reg.Remove(t.id)
+	w.reg.CleanupConnection("conn-probe")
+	w.reg.CleanupStaleTransactions()
+	if _, ok := w.reg.Get(t.id); ok {
+		w.fail("not_cleaned:remove", "the registry still knows %s after Remove", t.id)
+	}
+}
+
 func (w *world) ghosts() []*beginRec {
 	w.weng.mu.Lock()
 	defer w.weng.mu.Unlock()
@@ -1829,7 +2146,7 @@ func (w *world) run() {
 		case "bad_get":
 			w.doBadGet(s)
 		case "cleanup_stale":
-			w.doCleanupStale()
+			w.doCleanupStale(s)
 		case "cleanup_conn":
 			w.doCleanupConn(s)
 		case "shutdown":
@@ -1871,6 +2188,7 @@ func (w *world) run() {
 		w.probe(1)
 	}
 	w.refinishAll()
+	w.registryProbe()
 	if d, ok := w.leak(false); ok {
 		// active, unreachable, yet nobody is blocked: cannot happen while begin takes the lock
 		w.counters["active_unreachable_tx_not_blocking"]++
